@@ -52,7 +52,7 @@ def dec_runs(variant, cb, codecs, modes, randdev_q=0, randdev_t=1, extra=None):
 
 
 DEC_RULE = ("explicit-state BFS over operation histories of the real decoder API (DWS(e) for every ESI incl. duplicates, SAS(S) for every subset as first submission, terminal FINISH under scripted rand()), "
-            "states deduplicated by a digest of the concrete library state; plus complete 2^n received-subset enumeration and deviation-bounded / window / periodic loss families on large configurations; "
+            "states deduplicated by a digest of the concrete library state; every history that reaches a new state is run a second time without any query between its operations (quiet history: only the final state is looked at, all oracles but the pointer-identity clause apply); plus complete 2^n received-subset enumeration and deviation-bounded / window / periodic loss families on large configurations; "
             "a state is non-trivial if it differs from every other state in concrete library state or model state")
 DEC_BOUNDS = {
     "quick": ("BFS all orders + duplicates + both APIs (+FINISH): RS codec1/codec2(m=8,m=4) 1<=k<n<=6, LDPC k<=5,r in 3..5,n<=9,N1 in 3..min(r,5),seeds{1,2}; SAS subsets n<=9; "
